@@ -7,7 +7,7 @@ ALL = ["C%02d" % i for i in range(1, 19)]
 GOENV = "GOFLAGS=-mod=mod GOPROXY=off GOSUMDB=off GOTOOLCHAIN=local"
 m = {
     "version": 1,
-    "setup_cmd": "cd /verif/harness && %s go build ./... && %s go vet ./core/ && %s go test -count=1 -run 'TestModelSelf' ./checks/ -rapid.checks=3000 -rapid.seed=1 -rapid.nofailfile=true" % (GOENV, GOENV, GOENV),
+    "setup_cmd": "cd /verif/harness && %s go build ./... && %s go vet ./core/ && %s go test -count=1 -run 'TestModelSelf|TestModelDecodeCrossCheck' ./checks/ -rapid.checks=3000 -rapid.seed=1 -rapid.nofailfile=true" % (GOENV, GOENV, GOENV),
     "hooks": {
         "guard": "verif",
         "enable": "no hooks: every check observes the public API only (frugal.EncodedSize/EncodeObject/DecodeObject/Pretouch/options/debug.GetStats) from /verif/harness, which has `replace github.com/cloudwego/frugal => /repo`; nothing in /repo is guarded by the tag",
